@@ -34,7 +34,7 @@ def anchors():
 
 def cases(seed, tier):
     q = tier == "quick"
-    out = [{"fam": "gen", "seed": [seed, 14, i]} for i in range(100 if q else 1500)]
+    out = [{"fam": "gen", "seed": [seed, 14, i]} for i in range(140 if q else 1500)]
     dumps = ["initial_furrow.dmp", "12_12/step_21.dmp"] if q else \
         ["initial_furrow.dmp", "last_furrow.dmp"] + [f"12_12/step_{i}.dmp" for i in range(20, 25)] + \
         [f"furrow_gauss_velocity/stage{i}.dmp" for i in range(8)]
